@@ -241,6 +241,11 @@ func runC03(c *Ctx) error {
 		{"k=abc&k=abc", func(m1, m2 string) []expE { return []expE{{"C", "k", m2}, {"C", "k", m2}} }},
 		{"k=&k=", func(m1, m2 string) []expE { return []expE{{"C", "k", m1}, {"C", "k", m1}} }},
 		{"k=abcdefghi&p=2&k=", func(m1, m2 string) []expE { return []expE{{"C", "k", m1}} }}, // first satisfies both
+		// an escaped '#' is a character of the value like any other
+		{"k=%23abcdefgh", func(m1, m2 string) []expE { return nil }},
+		{"a=%23x&k=", func(m1, m2 string) []expE { return []expE{{"C", "k", m1}} }},
+		{"k=%23", func(m1, m2 string) []expE { return []expE{{"C", "k", m2}} }},
+		{"a=x%23y&k=abc&b=%23", func(m1, m2 string) []expE { return []expE{{"C", "k", m2}} }},
 	} {
 		m1, m2 := mark(), mark()
 		call := &walkCall{Entry: "url", Rules: map[string]string{"k": "required|" + m1 + ",eq=9|" + m2}, Src: "http://h.example/p?" + q.query}
